@@ -52,3 +52,40 @@ package verifier
 //@ ensures-local[C04.leaf-subset] result == nil && !hasStr(trustedIdentities, "*") ==> subsetDN(trustedX509Identity, leafCertDN) && isParseOf(leafCertDN, subjectString(certs[0])) && exists(q, 0, len(trustedIdentities), x509Identity(trustedIdentities[q], trustedX509Identity))
 //@ loop 1 invariant newsince(trustedX509Identities)
 //@ loop 1 invariant forall(t, 0, len(trustedX509Identities), exists(q, 0, rangeindex+1, x509Identity(trustedIdentities[q], trustedX509Identities[t])))
+
+// ---- C03: trust only from the listed stores of the type the scheme requires ----
+
+//@ pure func fromListedStore(c *x509.Certificate, ts []string, x truststore.X509TrustStore, t truststore.Type) bool = exists(s, 0, len(ts), cutFound(ts[s], ":") && cutBefore(ts[s], ":") == string(t) && storeErr(x, t, cutAfter(ts[s], ":")) == nil && heldIn(c, x, t, cutAfter(ts[s], ":")))
+//@ pure func storeFails(ts []string, x truststore.X509TrustStore, t truststore.Type) bool = exists(s, 0, len(ts), !cutFound(ts[s], ":") || (cutBefore(ts[s], ":") == string(t) && storeErr(x, t, cutAfter(ts[s], ":")) != nil))
+
+//@ func loadX509TrustStoresWithType
+//@ props C03 C06
+//@ requires x509TrustStore != nil
+//@ at call (X509TrustStore).GetCertificates: assert[C03.typed-call] arg1 == trustStoreType && exists(s, 0, len(trustStores), cutFound(trustStores[s], ":") && cutBefore(trustStores[s], ":") == string(trustStoreType) && arg2 == cutAfter(trustStores[s], ":"))
+//@ ensures[C03.provenance] result1 == nil ==> forall(c, 0, len(result), result[c] != nil && fromListedStore(result[c], trustStores, x509TrustStore, trustStoreType))
+//@ ensures[C03.load-error] storeFails(trustStores, x509TrustStore, trustStoreType) ==> result1 != nil
+//@ ensures[C03.no-partial] result1 != nil ==> result == nil
+//@ loop 1 invariant forall(c, 0, len(certificates), certificates[c] != nil && fromListedStore(certificates[c], trustStores, x509TrustStore, trustStoreType))
+//@ loop 1 invariant forall(s, 0, rangeindex+1, cutFound(trustStores[s], ":") && (cutBefore(trustStores[s], ":") == string(trustStoreType) ==> storeErr(x509TrustStore, trustStoreType, cutAfter(trustStores[s], ":")) == nil))
+//@ loop 1 invariant forallkeys(k, processedStoreSet, cutFound(k, ":") && (cutBefore(k, ":") == string(trustStoreType) ==> storeErr(x509TrustStore, trustStoreType, cutAfter(k, ":")) == nil))
+//@ loop 1 invariant newsince(certificates)
+//@ loop 1 modifies mapobj(processedStoreSet)
+
+//@ func loadX509TrustStores
+//@ props C03
+//@ requires x509TrustStore != nil
+//@ ensures[C03.scheme-type] result1 == nil ==> (scheme == signature.SigningSchemeX509 || scheme == signature.SigningSchemeX509SigningAuthority) && forall(c, 0, len(result), result[c] != nil && fromListedStore(result[c], trustStores, x509TrustStore, ite(scheme == signature.SigningSchemeX509, truststore.TypeCA, truststore.TypeSigningAuthority)))
+//@ ensures[C03.load-error] (scheme == signature.SigningSchemeX509 && storeFails(trustStores, x509TrustStore, truststore.TypeCA)) || (scheme == signature.SigningSchemeX509SigningAuthority && storeFails(trustStores, x509TrustStore, truststore.TypeSigningAuthority)) ==> result1 != nil
+//@ ensures[C03.no-partial] result1 != nil ==> result == nil
+
+//@ func loadX509TSATrustStores
+//@ props C03 C06
+//@ requires x509TrustStore != nil
+//@ ensures[C03.tsa-type] result1 == nil ==> scheme == signature.SigningSchemeX509 && forall(c, 0, len(result), result[c] != nil && fromListedStore(result[c], trustStores, x509TrustStore, truststore.TypeTSA))
+//@ ensures[C03.no-partial] result1 != nil ==> result == nil
+
+//@ func verifyAuthenticity
+//@ props C03 C02
+//@ requires outcomeWF(outcome)
+//@ ensures[C02.shape] result != nil && fresh(result) && result.Type == trustpolicy.TypeAuthenticity && result.Action == outcome.VerificationLevel.Enforcement[trustpolicy.TypeAuthenticity]
+//@ ensures[C03.anchor] result.Error == nil ==> len(trustCerts) >= 1 && exists(t, 0, len(trustCerts), exists(i, 0, len(chainOf(outcome)), certEqual(trustCerts[t], chainOf(outcome)[i])))
